@@ -484,12 +484,82 @@ def _fail_closed_iso():
 _fail_closed_iso()
 
 
-def sym_parse_date(orig):
+def iso_render(dt, sep="T"):
+    """character-level datetime.isoformat() for a symbolic datetime whose epoch second and UTC
+    offset are concrete and whose microsecond is symbolic: 'YYYY-MM-DDTHH:MM:SS[.ffffff]+HH:MM'
+    (CPython omits the fraction iff microsecond == 0)"""
+    from datetime import datetime as _dt, timedelta as _td, timezone as _tz
+
+    sec, micro = dt.parts
+    local = _dt(1970, 1, 1, tzinfo=_tz.utc) + _td(seconds=sec)
+    local = local.astimezone(_tz(_td(minutes=dt.off)))
+    whole = local.isoformat(sep)  # no fraction: microsecond == 0
+    head, tail = whole[:19], whole[19:]
+    if isinstance(micro, int):
+        frac = (".%06d" % micro) if micro else ""
+        return head + frac + tail
+    if truth(micro == 0):
+        return head + tail
+    digits = [((micro / (10 ** (5 - i))) % 10) + ord("0") for i in range(6)]
+    return SStr(list(head) + ["."] + digits + list(tail))
+
+
+def iso_parse(s, ParseError):
+    """iso8601.parse_date restricted to 'YYYY-MM-DD[ T]HH:MM:SS[(.|,)digits](Z|+HH[:][MM])?' with
+    symbolic fraction digits; anything else raises the library's ParseError (as its regex would)"""
+    from datetime import datetime as _dt, timezone as _tz
+    from .shadows import SDatetime
+
+    ch = s.chars
+    if len(ch) < 19 or not all(isinstance(c, str) for c in ch[:19]):
+        raise Unsupported("symbolic character in the date/time part of an ISO string")
+    head = "".join(ch[:19])
+    try:
+        if head[10] not in " T":
+            raise ValueError
+        base = _dt.strptime(head[:10] + "T" + head[11:], "%Y-%m-%dT%H:%M:%S")
+    except ValueError:
+        raise ParseError("Unable to parse date string (symbolic)")
+    i = 19
+    micro = 0
+    if i < len(ch) and truth(z3.Or(ceq(ch[i], "."), ceq(ch[i], ","))):
+        i += 1
+        digs = []
+        while i < len(ch):
+            c = ch[i]
+            isd = (c in "0123456789") if isinstance(c, str) else truth(z3.And(c >= ord("0"), c <= ord("9")))
+            if not isd:
+                break
+            digs.append((ord(c) - 48) if isinstance(c, str) else (c - 48))
+            i += 1
+        if not digs:
+            raise ParseError("Unable to parse date string (symbolic)")
+        for k, d in enumerate(digs[:6]):
+            micro = micro + d * 10 ** (5 - k)
+    rest = ch[i:]
+    if not all(isinstance(c, str) for c in rest):
+        raise Unsupported("symbolic character in the timezone part of an ISO string")
+    rest = "".join(rest)
+    import re as _re
+
+    m = _re.fullmatch(r"(Z|([-+])([0-9]{2}):?([0-9]{2})?)?", rest)
+    if not m:
+        raise ParseError("Unable to parse date string (symbolic)")
+    off = 0
+    if rest and rest != "Z":
+        off = (int(m.group(3)) * 60 + int(m.group(4) or 0)) * (-1 if m.group(2) == "-" else 1)
+    sec = int((base.replace(tzinfo=_tz.utc) - _dt(1970, 1, 1, tzinfo=_tz.utc)).total_seconds()) - off * 60
+    return SDatetime(sec * 1000000 + micro, off, False, (sec, micro))
+
+
+def sym_parse_date(orig, ParseError=None):
     def parse_date(s, *a, **k):
         if isinstance(s, SIsoStr):
             return s.dt
         if isinstance(s, SStr):
-            raise Unsupported("iso8601.parse_date on a symbolic string")
+            if ParseError is None:
+                raise Unsupported("iso8601.parse_date on a symbolic string")
+            return iso_parse(s, ParseError)
         return orig(s, *a, **k)
 
     return parse_date
